@@ -2,7 +2,8 @@
    Property theorems only; proofs are in Mod/Rename_proofs.v and Mod/Modules_proofs.v.
    The model Mod/Modules.v is tied to lark/load_grammar.py by harness/props/C17.py on every run. *)
 From Coq Require Import List String Ascii Bool ZArith Arith.
-From LV Require Import Cfg.Grammar Mod.Rename Mod.Rename_proofs Mod.Modules Mod.Modules_proofs.
+From LV Require Import Cfg.Grammar Mod.Rename Mod.Rename_proofs Mod.Modules Mod.Modules_proofs
+  Mod.Inline_proofs Mod.Compile Mod.Semantics_proofs Gen.Mangle Mod.MangleSrc_proofs.
 Import ListNotations.
 Local Open Scope string_scope.
 
@@ -90,10 +91,56 @@ Theorem C17_do_import loader fs ls b imp b' :
 Proof. exact (do_import_spec loader fs ls b imp b'). Qed.
 Print Assumptions C17_do_import.
 
-(* import = inlining, proved for modules that consist of plain definitions (rules, templates,
-   terminals): the contributed rules are exactly mangle_def (name, parameters and every symbol of
-   the body renamed) of the module's rules reachable from the imported names *)
-Theorem C17_import_is_inlining_partial f fs g ls b p al ds b' :
+(* ---- import = inlining, every module program --------------------------------------------------- *)
+(* loading a module (nested imports, templates, %extend / %override / %declare, terminals with their
+   shared tree objects) under the import chain ls1 ++ ls2 is the renaming, by the mangle of ls2, of
+   loading it under ls1 - definitions, tree objects, object numbering and all; for ls1 = [] (the module
+   on its own) the module's %ignore statements are set aside, as lark does not apply them on import *)
+Theorem C17_load_under_chain_is_renaming ls2 fs g fuel ls1 ms b b0 :
+  ls2 <> [] ->
+  (forall x y, mangle ls2 x = mangle ls2 y -> x = y) ->
+  (forall x, String.prefix "__" x = false -> String.prefix "__" (mangle ls2 x) = false) ->
+  ls1 <> [] \/ Forall not_ignore ms ->
+  load fuel fs g ls1 ms b = Ok b0 ->
+  load fuel fs g (ls1 ++ ls2)%list ms (rn_builder (mangle ls2) b) = Ok (rn_builder (mangle ls2) b0).
+Proof. intros Hne Hi Hr. exact (load_rn ls2 Hne Hi Hr fs g fuel ls1 ms b b0). Qed.
+Print Assumptions C17_load_under_chain_is_renaming.
+
+(* a checkable condition on the import chain under which its mangle is injective on ALL names and keeps
+   unreserved names unreserved: at every level the module prefix is non-empty and does not start with an
+   underscore, the alias targets are pairwise different, none of them is spelled like a mangled name
+   (prefix__... / _prefix__...) and none starts with a double underscore *)
+Theorem C17_chain_ok ls :
+  forallb layer_ok ls = true ->
+  (forall x y, mangle ls x = mangle ls y -> x = y) /\
+  (forall x, String.prefix "__" x = false -> String.prefix "__" (mangle ls x) = false).
+Proof. exact (chain_ok ls). Qed.
+Print Assumptions C17_chain_ok.
+
+(* the full statement: for every module that loads on its own, what an import of it adds to the
+   importing grammar is exactly rn_def (mangle ls') - name, parameters, every symbol of the body and the
+   template label renamed - of the part of the module's own definitions reachable from the imported
+   names, together with the module's tree objects renamed the same way; nothing else changes and none
+   of the added names was defined before *)
+Theorem C17_import_is_inlining f fs g ls b p al ms gb0 b' :
+  let ls' := (join "__" p, al) :: ls in
+  forallb layer_ok ls' = true ->
+  lookup_module p fs = Some ms ->
+  load f fs g [] (strip_ignore ms) (fresh_builder (b_next b)) = Ok gb0 ->
+  do_import (fun next ls0 ms0 => load f fs g ls0 ms0 (fresh_builder next)) fs ls b (p, al) = Ok b' ->
+  exists kept0,
+    remove_unused (b_defs gb0) (map fst al) = Ok kept0 /\
+    (forall d, In d kept0 <-> In d (b_defs gb0) /\ Reach (b_defs gb0) (map fst al) (d_name d)) /\
+    b_defs b' = (b_defs b ++ map (rn_def (mangle ls')) kept0)%list /\
+    b_heap b' = (b_heap b ++ rn_heap (mangle ls') (b_heap gb0))%list /\
+    b_ignore b' = b_ignore b /\ b_next b' = b_next gb0 /\
+    (forall d, In d kept0 -> defined (mangle ls' (d_name d)) (b_defs b) = false).
+Proof. exact (import_is_inlining_full f fs g ls b p al ms gb0 b'). Qed.
+Print Assumptions C17_import_is_inlining.
+
+(* without any condition on the aliases, for modules that consist of plain definitions: the contributed
+   rules are mangle_def of the module's reachable rules, and the mangled names are pairwise different *)
+Theorem C17_import_plain_module f fs g ls b p al ds b' :
   lookup_module p fs = Some (map (SDef KDefine) ds) ->
   do_import (fun next ls' ms => load (S f) fs g ls' ms (fresh_builder next)) fs ls b (p, al) = Ok b' ->
   let ls' := (join "__" p, al) :: ls in
@@ -106,21 +153,72 @@ Theorem C17_import_is_inlining_partial f fs g ls b p al ds b' :
     (forall d', In d' kept -> defined (d_name d') (b_defs b) = false) /\
     NoDup (map (fun d => mangle ls' (d_name d)) ds).
 Proof. exact (import_is_inlining f fs g ls b p al ds b'). Qed.
-Print Assumptions C17_import_is_inlining_partial.
+Print Assumptions C17_import_plain_module.
 
-(* full statement (not proved in general): for every module, what an import contributes is the
-   renaming of the reachable part of the module loaded on its own *)
-Definition rename_def (f : string -> string) (d : defn) : defn :=
-  mkDef (f (d_name d)) (d_term d) (option_map (rename_tree f) (d_tree d)) (map f (d_params d))
-        (match d_opts d with ORule k e p (Some _) => ORule k e p (Some (f (d_name d))) | o => o end).
-Definition C17_import_is_inlining_full_statement : Prop :=
-  forall f fs g ls b p al ms b' gb0,
-    lookup_module p fs = Some ms ->
-    do_import (fun next ls' ms => load f fs g ls' ms (fresh_builder next)) fs ls b (p, al) = Ok b' ->
-    load f fs g [] ms empty_builder = Ok gb0 ->
-    exists kept0,
-      (forall d, In d kept0 <-> In d (export gb0) /\ Reach (b_defs gb0) (map fst al) (d_name d)) /\
-      export b' = (export b ++ map (rename_def (mangle ((join "__" p, al) :: ls))) kept0)%list.
+(* ---- the semantic reading (BNF-like fragment: expansions of expansions of symbols) ------------------ *)
+(* definitions renamed = grammar renamed (num: any numbering of names; the renamed terminal has the
+   token class of the original one) *)
+Theorem C17_compile_rename num unnum rho tnum tnum' :
+  (forall s, unnum (num s) = s) -> (forall x, tnum' (rho x) = tnum x) ->
+  forall l, compile num tnum' (map (rn_def rho) l) =
+            option_map (rename_grammar (rho' num unnum rho)) (compile num tnum l).
+Proof. intros Hn Ht. exact (compile_rn num unnum Hn rho tnum tnum' Ht). Qed.
+Print Assumptions C17_compile_rename.
+
+(* the grammar an import contributes is the module's own grammar renamed: every imported or
+   transitively imported name rho X has the language X has in the module ... *)
+Theorem C17_contributed_language num unnum rho tnum tnum' (tok : Type) (tmatch : nat -> tok -> bool) kept0 G0 :
+  (forall s, unnum (num s) = s) -> (forall x y, rho x = rho y -> x = y) -> (forall x, tnum' (rho x) = tnum x) ->
+  compile num tnum kept0 = Some G0 ->
+  exists Gc, compile num tnum' (map (rn_def rho) kept0) = Some Gc /\
+    Gc = rename_grammar (rho' num unnum rho) G0 /\
+    forall X w, sentence Gc tok tmatch (num (rho X)) w <-> sentence G0 tok tmatch (num X) w.
+Proof. intros Hn Hi Ht. exact (contributed_language num unnum Hn rho Hi tnum tnum' Ht tok tmatch kept0 G0). Qed.
+Print Assumptions C17_contributed_language.
+
+(* ... and the same derivation trees, labels renamed *)
+Theorem C17_contributed_trees num unnum rho tnum (tok : Type) (tmatch : nat -> tok -> bool) kept0 G0 X :
+  (forall s, unnum (num s) = s) -> (forall x y, rho x = rho y -> x = y) ->
+  compile num tnum kept0 = Some G0 ->
+  let r' := rho' num unnum rho in
+  (forall t, tree_of G0 tok tmatch (NT (num X)) t ->
+             tree_of (rename_grammar r' G0) tok tmatch (NT (num (rho X))) (rename_dtree r' t) /\
+             yield (rename_dtree r' t) = yield t) /\
+  (forall t', tree_of (rename_grammar r' G0) tok tmatch (NT (num (rho X))) t' ->
+              exists t, tree_of G0 tok tmatch (NT (num X)) t /\ t' = rename_dtree r' t /\ yield t' = yield t).
+Proof. intros Hn Hi. exact (contributed_trees num unnum Hn rho Hi tnum tok tmatch kept0 G0 X). Qed.
+Print Assumptions C17_contributed_trees.
+
+(* inside ANY importing grammar G that contains the contributed rules and has no other rule for the
+   contributed names (no later %extend / %override of them), an imported name has exactly the language
+   it has in the module's own grammar G0 (G0 closed: every rule it uses is one of its own) - i.e. the
+   importing grammar and the grammar with the module written out by hand agree on it, up to rho *)
+Theorem C17_imported_language num unnum rho tnum tnum' (tok : Type) (tmatch : nat -> tok -> bool) kept0 G0 G :
+  (forall s, unnum (num s) = s) -> (forall x y, rho x = rho y -> x = y) -> (forall x, tnum' (rho x) = tnum x) ->
+  compile num tnum kept0 = Some G0 ->
+  (forall r a, In r G0 -> In a (nts (rhs r)) -> In a (map lhs G0)) ->
+  let Gc := rename_grammar (rho' num unnum rho) G0 in
+  incl Gc G ->
+  (forall r, In r G -> In (lhs r) (map lhs Gc) -> In r Gc) ->
+  forall X w, In (num X) (map lhs G0) ->
+    (sentence G tok tmatch (num (rho X)) w <-> sentence G0 tok tmatch (num X) w).
+Proof.
+  intros Hn Hi Ht. exact (imported_language num unnum Hn rho Hi tnum tnum' Ht tok tmatch kept0 G0 G).
+Qed.
+Print Assumptions C17_imported_language.
+
+Theorem C17_numbering_exists : forall s, unnum_of (num_of s) = s.
+Proof. exact numbering_exists. Qed.
+Print Assumptions C17_numbering_exists.
+
+(* ---- mangle is the function of the current source (coq/Gen/Mangle.v is regenerated from
+        lark/load_grammar.py:_get_mangle on every run) -------------------------------------------------- *)
+Theorem C17_mangle_is_source l ls s :
+  s <> "" ->
+  get_mangle_src (fst l) (snd l) None s = Some (mangle1 l s) /\
+  get_mangle_src (fst l) (snd l) (Some (mangle ls)) s = Some (mangle (l :: ls) s).
+Proof. intros Hs. split. exact (mangle1_is_source l s Hs). exact (mangle_is_source l ls s Hs). Qed.
+Print Assumptions C17_mangle_is_source.
 
 (* no capture: a private name of an imported module is never spelled like itself after mangling;
    a contributed name that is already defined is an error (EClash), and so is a later local
@@ -319,3 +417,55 @@ Proof.
   vm_compute. split; reflexivity.
 Qed.
 Print Assumptions C17_override_terminal_refuted.
+
+(* ---- instances of the full import theorem and of the semantic corollary --------------------------------- *)
+(*  mid.lark:  %import units (LENGTH, UNIT)   %extend UNIT: "km"   size: LENGTH "!"
+               pair{t}: t t                    two: pair{LENGTH}    WS: " "   %ignore WS        *)
+Definition ex_mid : list stmt :=
+  [ SImport ["units"] [("LENGTH", "LENGTH"); ("UNIT", "UNIT")];
+    SDef KExtend (mkDef "UNIT" true (Some (alts [[lit """km"""]])) [] (OTerm 0));
+    rl "size" [] (alts [[ref true "LENGTH"; lit """!"""]]);
+    rl "pair" ["t"] (alts [[ref false "t"; ref false "t"]]);
+    rl "two" [] (alts [[Nd "value" [Nd "template_usage" [Sy false "pair"; ref true "LENGTH"]]]]);
+    tm "WS" (alts [[lit """ """]]);
+    SIgnore (alts [[ref true "WS"]]) ].
+Definition ex_fs2 : module_files := [(["units"], ex_units); (["mid"], ex_mid)].
+Definition ex_imp : list string * list (string * string) := (["mid"], [("size", "size"); ("two", "two")]).
+
+(* the hypotheses of C17_import_is_inlining hold for a module with a nested import, %extend of a shared
+   terminal, a template and an %ignore; the import adds exactly the renamed reachable definitions *)
+Example C17_import_is_inlining_example :
+  exists gb0 b' kept0,
+    forallb layer_ok [(join "__" (fst ex_imp), snd ex_imp)] = true /\
+    load 8 ex_fs2 false [] (strip_ignore ex_mid) (fresh_builder 0) = Ok gb0 /\
+    do_import (fun next ls0 ms0 => load 8 ex_fs2 false ls0 ms0 (fresh_builder next)) ex_fs2 [] empty_builder ex_imp = Ok b' /\
+    remove_unused (b_defs gb0) (map fst (snd ex_imp)) = Ok kept0 /\
+    map d_name (b_defs gb0) = ["UNIT"; "LENGTH"; "size"; "pair"; "two"; "WS"] /\
+    b_defs b' = map (rn_def (mangle [(join "__" (fst ex_imp), snd ex_imp)])) kept0 /\
+    map d_name (b_defs b') = ["mid__LENGTH"; "size"; "mid__pair"; "two"].
+Proof.
+  eexists. eexists. eexists.
+  split. vm_compute; reflexivity.
+  split. vm_compute; reflexivity.
+  split. vm_compute; reflexivity.
+  split. vm_compute; reflexivity.
+  split. vm_compute; reflexivity.
+  split. vm_compute; reflexivity.
+  vm_compute; reflexivity.
+Qed.
+
+(*  a: b X | X      b: X b | X     (a rule-only module, closed)  *)
+Definition ex_bnf : list defn :=
+  [ mkDef "a" false (Some (alts [[ref false "b"; ref true "X"]; [ref true "X"]])) [] (ORule false false None None);
+    mkDef "b" false (Some (alts [[ref true "X"; ref false "b"]; [ref true "X"]])) [] (ORule false false None None) ].
+
+Example C17_semantic_example (num tnum : string -> nat) :
+  exists G0, compile num tnum ex_bnf = Some G0 /\
+    (forall r a, In r G0 -> In a (nts (rhs r)) -> In a (map lhs G0)) /\
+    In (num "a") (map lhs G0) /\ List.length G0 = 4.
+Proof.
+  eexists. split. reflexivity. split.
+  - intros r a Hr Ha. simpl in Hr.
+    destruct Hr as [<-|[<-|[<-|[<-|[]]]]]; simpl in Ha; simpl; tauto.
+  - split. simpl. auto. reflexivity.
+Qed.
